@@ -2,10 +2,14 @@
 
 ENGINES = [
     dict(name='symx', path='/verif/symx',
-         serves_properties=['C01', 'C02', 'C03', 'C04', 'C05', 'C06', 'C07', 'C12', 'C13'],
+         serves_properties=['C01', 'C02', 'C03', 'C04', 'C05', 'C06', 'C07', 'C12', 'C13', 'C17', 'C20'],
          kind_free_text='symbolic execution of the real emsarray functions on numpy/xarray object arrays of z3-backed '
                         'scalars; fork-by-re-execution path explorer; every path closed by z3 verdict queries and a '
                         'concrete replay of a model on the unmodified stack'),
+    dict(name='smtre+astsym', path='/verif/symx/smtre.py /verif/symx/astsym.py',
+         serves_properties=['C17', 'C20'],
+         kind_free_text='direct SMT encodings regenerated from the live objects on every run: Python regex parse tree -> z3 '
+                        'regular expression; AST slice of a real function interpreted over z3 Ints / digit cells'),
 ]
 
 _UNDER = 'check not built yet in this round (see DESIGN.md section 4 for the plan); no claim is made'
@@ -110,6 +114,30 @@ CHECKS = {
         design_ref='DESIGN.md section 4, C13',
         note='When the positive attribute is absent the depth values are concrete sign patterns (the sign guess indexes an '
              'array with a comparison result). 2-4 levels. One genuine defect (case-sensitive attribute) was repaired in /repo.',
+    ),
+    'C17': dict(
+        engine='smtre+astsym',
+        technique='AST slice of the real offset formatter interpreted symbolically (z3 Int offset, digit-cell text); z3 decides read-back equality against a model of the cftime reader; symx for the fill-value logic',
+        text='For every UTC offset in [-1440, 1440] minutes z3 shows that the offset text emitted by the current source of '
+             'format_time_units_for_ems is in the grammar of the live cftime TIMEZONE_REGEX and is read back as the same offset '
+             '(hence the same reference instant); disable_default_fill_value is explored over symbolic _FillValue membership. '
+             'Real save/reopen round trips per convention are validated on witnesses.',
+        design_ref='DESIGN.md section 4, C17',
+        note='The cftime reader value function is a model, diffed against cftime._parse_date on 11k strings each run; the '
+             'date-time digits come from strftime (outside); netCDF rewrite and xarray decoding on witnesses only.',
+        category='model_checking',
+    ),
+    'C20': dict(
+        engine='smtre+astsym',
+        technique='z3 regular-language inclusion between the translated live bounds_re (with the call-site match method read from the AST) and reference grammars; symx for the error-to-exit-status mapping; in-process CLI runs on witnesses',
+        text='z3 decides, over all ASCII strings, L(accepted as bounds) <= {four numerals with optional blanks} and '
+             '{four plain numerals} <= L(accepted); every solver string is pushed through the real function; exit-status '
+             'mapping for a symbolic CommandException code; clip / extract-points / export-geometry compared with the '
+             'library in process on real files for three convention families.',
+        design_ref='DESIGN.md section 4, C20',
+        note='Whole-command equivalence is validated on witnesses only (file I/O); non-ASCII input and shapefile export are '
+             'outside. One genuine defect (prefix match) was repaired in /repo.',
+        category='model_checking',
     ),
 }
 
